@@ -55,6 +55,7 @@ def run(ctx, rep) -> None:
 
     # ---- R1 --------------------------------------------------------------------------------------------
     sqlshape.rule_lock_visibility(ctx, rep, "C08.R1")
+    sqlshape.rule_timestamp_normalised(ctx, rep, "C08.R1")
     poll = prog.func(Q, "SqliteQueue.poll_one")
     ups = [s for s in qs if s.func is poll or s.func.qualname == "SqliteQueue.poll_one" and s.kind == "UPDATE"]
     ups = [s for s in ups if s.kind == "UPDATE"]
